@@ -15,6 +15,9 @@ type VerifHookSet struct {
 	ReproduceEnd func(s *Species, p *Population, babies []*Organism)
 	// InnovationStored is invoked after innovation was appended to the innovations record of the population
 	InnovationStored func(p *Population, innovation Innovation)
+	// Mated is invoked by the reproduction of a species right after a crossover returned the child genome (before any
+	// mutation of it); method is one of multipoint, multipoint_avg, singlepoint
+	Mated func(mom, dad *Organism, child *Genome, method string)
 	// Yield is invoked between the scan of innovations record and issue of the new innovation number / node ID
 	Yield func(site string)
 }
@@ -55,5 +58,11 @@ func verifInnovationStored(p *Population, innovation Innovation) {
 func verifYield(site string) {
 	if VerifHooks.Yield != nil {
 		VerifHooks.Yield(site)
+	}
+}
+
+func verifMated(mom, dad *Organism, child *Genome, method string) {
+	if VerifHooks.Mated != nil {
+		VerifHooks.Mated(mom, dad, child, method)
 	}
 }
